@@ -204,6 +204,16 @@ pub fn catalogue() -> Vec<Probe> {
                 push(name, what.to_string(), body, allowed);
             }
         }
+        // ---- correct *generic* programs: code written against the unsealing traits only (what a verify-only /
+        // decrypt-only consumer can name) parses, unseals and displays tokens
+        for purpose in ["Local", "Public"] {
+            push(name, format!("generic over the version: parse a {purpose} token given only UnsealingVersion"), format!("<W: paseto_core::version::UnsealingVersion<{purpose}>>(s: &str) {{ let _ = s.parse::<SealedToken<W, {purpose}, P>>(); }}"), true);
+            push(name, format!("generic over the version: display a {purpose} token given only UnsealingVersion"), format!("<W: paseto_core::version::UnsealingVersion<{purpose}>>(t: &SealedToken<W, {purpose}, P>) {{ let _ = t.to_string(); }}"), true);
+            push(name, format!("generic over the version: unseal a {purpose} token given only UnsealingVersion"), format!("<W: paseto_core::version::UnsealingVersion<{purpose}>>(t: SealedToken<W, {purpose}, P>, k: &Key<W, {purpose}>, v: &NoValidation<P>) {{ let _ = t.unseal(k, b\"\", v); }}"), true);
+            push(name, format!("generic over the version: deserialise a {purpose} token given only UnsealingVersion"), format!("<W: paseto_core::version::UnsealingVersion<{purpose}>>(s: &str) {{ let _: Result<SealedToken<W, {purpose}, P>, _> = serde_json::from_str(s); }}"), true);
+        }
+        push(name, "generic over the version: seal given only SealingVersion".into(), format!("<W: paseto_core::version::SealingVersion<Local>>(t: UnsealedToken<W, Local, P>, k: &Key<W, Local>) {{ let _ = t.seal(k, b\"\"); }}"), true);
+        push(name, "generic over the version: a key id given only IdVersion".into(), format!("<W: paseto_core::paserk::IdVersion + paseto_core::key::HasKey<Local>>(k: &Key<W, Local>) {{ let _ = k.id().to_string(); }}"), true);
         // ---- tokens: unsealed ones cannot be serialised; sealed internals are private
         for purpose in ["Local", "Public"] {
             push(name, format!("to_string an unsealed {purpose} token"), format!("(t: &UnsealedToken<{va}, {purpose}, P>) {{ let _ = t.to_string(); }}"), false);
